@@ -502,3 +502,23 @@ Proof. split; [vm_compute; reflexivity|]. split; [vm_compute; reflexivity|]. eex
    _expand_home_only is outside the reach of `except ValueError`) *)
 Lemma total_needs_home : parse_config None eu_nosuchuser $"allow ~/bin/x" = Exn RuntimeError.
 Proof. vm_compute. reflexivity. Qed.
+
+(* ---------------------------------------------------------------- concatenating texts (used by the layer model, C10) *)
+Lemma split_ch_aux_sep c a b cur :
+  split_ch_aux c (a ++ c :: b) cur = split_ch_aux c a cur ++ split_ch_aux c b [].
+Proof.
+  revert cur. induction a as [|x a IH]; intros cur; simpl.
+  - rewrite N.eqb_refl. reflexivity.
+  - destruct (N.eqb x c); [rewrite IH; reflexivity|apply IH].
+Qed.
+
+Lemma lines_of_app a b : lines_of (a ++ [NL] ++ b) = lines_of a ++ lines_of b.
+Proof. unfold lines_of, split_ch. apply split_ch_aux_sep. Qed.
+
+Lemma parse_config_app home expu h a b :
+  home = Some h ->
+  parse_config home expu (a ++ [NL] ++ b)
+  = Ok (config_of (run home expu (lines_of b) (run home expu (lines_of a) init))).
+Proof.
+  intros Hh. rewrite (parse_config_total home expu h _ Hh), lines_of_app, run_app. reflexivity.
+Qed.
